@@ -315,7 +315,7 @@ def execute(scen):
                 sim.settle()
                 continue
             if op == "gap":
-                sim.run_for(st["dt"])
+                sim.gap(st)
                 continue
             if op != "hostile":
                 apply_step(stack, st)
